@@ -173,6 +173,10 @@ def _on_instr(code, offset):
         return
     try:
         S.step_event(tid, code, offset)
+    except RecursionError:
+        # the SUT is at the interpreter's recursion limit (deep-nesting inputs): it is about to
+        # raise RecursionError itself; this event is simply not a pre-emption point
+        return
     except BaseException as e:      # never let the harness raise into the SUT
         S.harness_error = repr(e)
 
@@ -213,6 +217,7 @@ class Sched:
         self.overlap = 0
         self.sites = set()
         self.miss_calls = 0
+        self._hot = {}
         self.stalls_fired = 0
         self.missing = [None] * n       # symbol a thread is computing on the cache-miss path
         self.double_miss = 0            # two threads on the miss path for the same symbol at once
@@ -232,6 +237,22 @@ class Sched:
             self.c = policy.get("c", 0.0)
         self.p = policy.get("p", 0.0)
 
+    def is_hot(self, code):
+        """Window policy: switching is 32x more likely inside 'hot' functions - either the fixed
+        list of functions that touch shared or call-spanning state on the current tree, or
+        (salted runs) a pseudo-random 1/6 of all function names, so that state introduced by a
+        change in any other function gets the same treatment."""
+        h = self._hot.get(code)
+        if h is None:
+            salt = self.policy.get("salt")
+            if salt is None:
+                h = code.co_name in WINDOW
+            else:
+                import zlib
+                h = zlib.crc32(("%s:%s" % (salt, code.co_name)).encode()) % 6 == 0
+            self._hot[code] = h
+        return h
+
     # -- choice helpers
     def runnable(self, exclude=None):
         return [i for i in range(self.n) if self.alive[i] and self.blocked[i] is None and i != exclude]
@@ -241,7 +262,7 @@ class Sched:
         self.switches.append([self.step, frm, to, reason, name, offset if offset is not None else -1])
         if reason == "preempt":
             self.sites.add((name, offset))
-            if name in WINDOW:
+            if name in WINDOW or (code is not None and self.policy["kind"] == "window" and self.is_hot(code)):
                 self.window_switches += 1
             if self.in_call[frm] and self.in_call[to]:
                 self.overlap += 1
@@ -323,7 +344,7 @@ class Sched:
             best = max(cands, key=lambda i: self.prio[i])
             return best if best != tid else None
         p = self.p
-        if kind == "window" and code.co_name in WINDOW:
+        if kind == "window" and self.is_hot(code):
             p = min(0.5, p * 32)
         if self.rng.random() < p:
             cands = self.runnable(exclude=tid)
